@@ -585,6 +585,9 @@ func RunMapInitExpr(ctx *Task, expr *ast.MapLiteral) (any, ast.DType, *errchain.
 // }
 
 func RunIndexExprGet(ctx *Task, expr *ast.IndexExpr) (any, ast.DType, *errchain.PlError) {
+	if expr.Obj == nil {
+		return nil, ast.Invalid, NewRunError(ctx, "index expression has no object", noObjIndexPos(expr))
+	}
 	key := expr.Obj.Name
 
 	varb, err := ctx.GetKey(key)
@@ -612,6 +615,14 @@ func RunIndexExprGet(ctx *Task, expr *ast.IndexExpr) (any, ast.DType, *errchain.
 	}
 
 	return searchListAndMap(ctx, varb.Value, expr.Index)
+}
+
+// noObjIndexPos is the position reported for an object-less `.[i]` expression.
+func noObjIndexPos(expr *ast.IndexExpr) token.LnColPos {
+	if len(expr.LBracket) > 0 {
+		return expr.LBracket[0]
+	}
+	return token.InvalidLnColPos
 }
 
 func searchListAndMap(ctx *Task, obj any, index []*ast.Node) (any, ast.DType, *errchain.PlError) {
@@ -905,6 +916,9 @@ func RunAssignmentExpr(ctx *Task, expr *ast.AssignmentExpr) (any, ast.DType, *er
 				"unsupported op", expr.OpPos)
 		}
 	case ast.TypeIndexExpr:
+		if LHS.IndexExpr().Obj == nil {
+			return nil, ast.Invalid, NewRunError(ctx, "index expression has no object", noObjIndexPos(LHS.IndexExpr()))
+		}
 		switch expr.Op {
 		case ast.EQ:
 			varb, err := ctx.GetKey(LHS.IndexExpr().Obj.Name)
